@@ -460,8 +460,8 @@ def _getput_line_comment(
     # put operation
 
     if comment is not None:
-        if '\n' in comment:
-            raise ValueError('line comment cannot have newlines in it')
+        if '\n' in comment or '\r' in comment or '\0' in comment:  # '\r' ends the line for the python tokenizer just like '\n' and a null byte can not be in source at all
+            raise ValueError('line comment cannot have newlines or null bytes in it')
 
         if full:
             if not comment.lstrip().startswith('#'):
